@@ -132,6 +132,7 @@ def body(c):
     x, y, z = make(struct, c, scale=tiny), make(struct, c, key_order="reversed" if c.bool() else None, scale=tiny), make(struct, c, scale=tiny)
     a, b = c.choice([0.5, -1.5, 2.0, 0.25]), c.choice([1.5, -0.5, 4.0])
     sample = {"struct": struct, "x": repr(x)[:200]}
+    c.features.update(struct=json.dumps(struct), dtypes=sorted({str(onp.asarray(l).dtype) for l in leaves(x)}), n_leaves=len(leaves(x)))
     bucket = lambda k: f"C13|axioms|{k}"
     probs = []
     try:
@@ -164,7 +165,10 @@ def body(c):
         if not eq(vs.covector(vs.covector(x)), x):
             probs.append(("covector_involution", "covector(covector(x)) != x"))
         for name, val in (("add", vs.add(x, y)), ("scalar_mul", vs.scalar_mul(x, 0.5)), ("zeros", vs.zeros()), ("ones", vs.ones()),
-                          ("randn", vs.randn()), ("covector", vs.covector(x))):
+                          ("randn", vs.randn()), ("covector", vs.covector(x)),
+                          # scalars as NumPy hands them out (an inner product is one): they must not widen a low-precision space
+                          ("scalar_mul by a numpy.float64", vs.scalar_mul(x, onp.float64(0.5))), ("scalar_mul by a 0-d array", vs.scalar_mul(x, onp.array(0.5))),
+                          ("scalar_mul by an inner product", vs.scalar_mul(x, vs.inner_prod(y, y)))):
             if not vspace(val) == vs:
                 probs.append(("closure", f"{name} result lies in {vspace(val)!r}, not {vs!r}"))
         ip = vs.inner_prod
